@@ -11,6 +11,7 @@
 import RelicVerif.Lemmas.NtMxp
 import RelicVerif.Lemmas.NtMxpLeg
 import RelicVerif.Lemmas.NtMxpRsa
+import RelicVerif.Lemmas.NtMxpFew
 
 namespace Relic.Props.C09
 open Relic.Model Relic.Model.NtMxp
@@ -90,6 +91,12 @@ theorem mxp_crt_rsa (w : Nat) (p q : Nat) [Fact p.Prime] [Fact q.Prime] (hp2 : p
     (a : Int) (d dp dq : Nat) (hd : 1 ≤ d) (hdp : 1 ≤ dp) (hdq : 1 ≤ dq)
     (h1 : dp ≡ d [MOD p - 1]) (h2 : dq ≡ d [MOD q - 1]) :
     mxpCrtOp w a dp dq p q false = some (a ^ d % ((p : Int) * q)) := mxpCrt_rsa w p q hp2 hq2 hpq a d dp dq hd hdp hdq h1 h2
+
+/-- bn_mxp_sim_few for every n, on ALL integers (c0 = the value c holds before the call, ps = [(a_0, b_0), …]): m = 1 → 0; n = 0 → c untouched;
+    n > 8 → error; m even or ≤ 0 → error; otherwise (Π a_i^|b_i|) mod m, canonical. The 2^n table is proved right on every index whose
+    bits select only bases with a non-zero exponent (`TabOK`), and only such indices are read (`parity_sub`) -/
+theorem mxp_sim_few_exact (w : Nat) (c0 : Int) (ps : List (Int × Int)) (m : Int) :
+    FewSpec c0 ps m (mxpSimFew w c0 ps m) := mxpSimFew_spec w c0 ps m
 
 -- the hypotheses are satisfiable
 example : ∃ r, mxpCrtOp 64 5 3 3 7 11 false = some r ∧ 0 ≤ r ∧ r < 7 * 11 ∧ r ≡ 5 ^ 3 [ZMOD 7] ∧ r ≡ 5 ^ 3 [ZMOD 11] :=
